@@ -36,14 +36,24 @@ def runShareCase (id : String) (field : String → List SExp) (events : List (Li
   let cold : Option (List Val) := match field "src" with
     | e :: _ => if e.head == "iter" then some (e.args.map parseVal) else none
     | [] => none
-  let rec go (w : Share.W) (k : Nat) : List (List SExp) → List String
+  -- `subfin k`: a subscriber whose observer reports `is_finished() = true` from the start and logs nothing (a probe
+  -- the harness keeps silent): for the shared observable it is a subscriber like any other; its label is MUTED in the
+  -- printed deliveries until the label is subscribed again
+  let mute (muted : List Nat) (o : Share.Out) : Share.Out := match o with
+    | .dlv ds s t => .dlv (ds.filter (fun d => !muted.contains d.1)) s t
+    | o => o
+  let rec go (w : Share.W) (muted : List Nat) (k : Nat) : List (List SExp) → List String
     | [] => []
     | ev :: r =>
-      match parseShareEv ev with
+      let (ev', muted') := match ev with
+        | .atom "subfin" :: lbl :: rest => (.atom "sub" :: lbl :: rest, lbl.nat :: muted)
+        | .atom "sub" :: lbl :: _ => (ev, muted.filter (· != lbl.nat))
+        | _ => (ev, muted)
+      match parseShareEv ev' with
       | some x =>
         let (w', o) := w.step x
-        s!"{id}.{k} {showShareOut o}" :: go w' (k + 1) r
+        s!"{id}.{k} {showShareOut (mute muted' o)}" :: go w' muted' (k + 1) r
       | none => [s!"{id}.{k} BADEV"]
-  go (Share.init m kind cold) 0 events
+  go (Share.init m kind cold) [] 0 events
 
 end Rx.Driver.ShareS
